@@ -95,7 +95,7 @@ def cores(run, m, F, E):
             s2 = o.st
             pc = [e for e in s2.events if e[0] == 'prefix-compare']
             if len(pc) != 1:
-                problems.append('%d calls of the prefix comparator on one path' % len(pc))
+                und.append('%d calls of the prefix comparator on one path' % len(pc))
                 continue
             _, inst, a0, a1, cnt, who = pc[0]
             # prefix length = min(lsize, rsize), pointers as given
@@ -103,7 +103,7 @@ def cores(run, m, F, E):
             mn = ls.lin if s2.is_ge0(rs.lin - ls.lin) is True else (rs.lin if s2.is_ge0(ls.lin - rs.lin) is True else None)
             if cl is None or mn is None or s2.is_eq0(cl - mn) is not True:
                 env = s2.find_model([cl - ls.lin, cl - rs.lin], lambda v: not (min(-v[0], -v[1]) == 0 and v[0] <= 0 and v[1] <= 0)) if cl is not None else None
-                problems.append('prefix comparator is given %r units, not min(lsize, rsize)' % (cl,))
+                (problems if env is not None else und).append('prefix comparator is given %r units, not min(lsize, rsize)%s' % (cl, '; witness ' + own.fmt_env(env) if env else ''))
             if not (isinstance(a0, PtrV) and isinstance(a1, PtrV) and a0.obj == lp.obj and a1.obj == rp.obj):
                 problems.append('prefix comparator is not given (left, right)')
             v = o.val
@@ -129,8 +129,10 @@ def cores(run, m, F, E):
                         problems.append('equal prefix' * (cs == 'zero') + 'comparator %s' % cs * (cs != 'zero') +
                                         ', lsize %s rsize: returns a value whose sign is not %s; witness %s' %
                                         ({'neg': '<', 'zero': '==', 'pos': '>'}[ds], want, own.fmt_env(dict((k, v2) for k, v2 in env.items() if isinstance(k, str)))))
-                    elif got is not None:
+                    elif got is not None and not s3.facts and not s3.nefacts:
                         problems.append('comparator %s, sizes %s: returns %s, expected %s' % (cs, ds, got, want))
+                    elif got is not None:
+                        und.append('comparator %s, sizes %s: returns %s where %s is expected, but no witness consistent with the path was found' % (cs, ds, got, want))
                     else:
                         und.append('sign of the result not decided for comparator %s / sizes %s' % (cs, ds))
         if problems:
